@@ -404,6 +404,60 @@ func c15History(c *mon.Ctx, r *mon.Rand, pool []logenc.Group, nops int) (key str
 	return
 }
 
+// c15PrivateCaches: ResolveIDsFromCaches with caches of the caller's own resolves through THOSE caches only. The
+// process-wide default caches know accounts nobody else knows (injected with HardcodeUsers / HardcodeGroups:
+// 100014 = verif-u / verif-alias, 100021 = verif-g / verif-galias); fresh private caches do not. An event that
+// carries only the ids must come out without those names, one that carries only the names without those ids, for
+// every record type whose normalisation fills the user / group entities - and the default caches must serve the
+// next ResolveIDs as before.
+func c15PrivateCaches(c *mon.Ctx) {
+	types := []string{"USER_AUTH", "USER_ACCT", "USER_LOGIN", "USER_START", "USER_END", "CRED_ACQ", "CRED_DISP", "ADD_USER", "DEL_USER", "ADD_GROUP", "DEL_GROUP", "USER_CHAUTHTOK", "USER_MGMT", "GRP_MGMT", "USER_ROLE_CHANGE", "USER_CMD", "LOGIN"}
+	seq := 20000
+	for _, t := range types {
+		for variant := 0; variant < 4; variant++ {
+			seq++
+			var line string
+			var forbidden []string
+			switch variant {
+			case 0: // ids only, in the record's own fields
+				line = fmt.Sprintf("type=%s msg=audit(1500000000.700:%d): pid=1 uid=100014 auid=100014 ses=5 msg='op=x id=100014 exe=\"/usr/sbin/x\" hostname=h addr=192.0.2.9 terminal=ssh res=success'", t, seq)
+				forbidden = []string{"verif-u", "verif-alias", "verif-g", "verif-galias"}
+			case 1: // ids only, group flavoured
+				line = fmt.Sprintf("type=%s msg=audit(1500000000.700:%d): pid=1 uid=0 gid=100021 auid=0 ses=5 msg='op=x id=100021 gid=100021 exe=\"/usr/sbin/x\" hostname=h addr=? terminal=pts/0 res=success'", t, seq)
+				forbidden = []string{"verif-u", "verif-alias", "verif-g", "verif-galias"}
+			case 2: // names only
+				line = fmt.Sprintf("type=%s msg=audit(1500000000.700:%d): pid=1 uid=0 auid=0 ses=5 msg='op=x acct=\"verif-u\" grp=\"verif-g\" exe=\"/usr/sbin/x\" hostname=h addr=? terminal=pts/0 res=success'", t, seq)
+				forbidden = []string{"100014", "100021"}
+			default:
+				line = fmt.Sprintf("type=%s msg=audit(1500000000.700:%d): pid=1 uid=0 auid=0 ses=5 msg='op=x acct=\"verif-alias\" grp=\"verif-galias\" exe=\"/usr/sbin/x\" hostname=h addr=? terminal=pts/0 res=success'", t, seq)
+				forbidden = []string{"100014", "100021"}
+			}
+			m, err := auparse.ParseLogLine(line)
+			if err != nil {
+				continue
+			}
+			e, err := aucoalesce.CoalesceMessages([]*auparse.AuditMessage{m})
+			if err != nil || e == nil {
+				continue
+			}
+			uc, gc := aucoalesce.NewUserCache(time.Hour), aucoalesce.NewGroupCache(time.Hour)
+			if p, st := mon.Try(func() { aucoalesce.ResolveIDsFromCaches(e, uc, gc) }); p != nil {
+				c.Violation("panic", fmt.Sprintf("ResolveIDsFromCaches panicked: %v\n%s", p, st), &c15Case{Ops: []string{"private caches", line}})
+				return
+			}
+			c.Add("evaluations", 1)
+			c.Add("events_resolved_through_private_caches", 1)
+			b, _ := json.Marshal(e)
+			for _, f := range forbidden {
+				if strings.Contains(string(b), f) {
+					c.Violation("resolved-through-foreign-cache", fmt.Sprintf("an event resolved with ResolveIDsFromCaches through fresh caches of the caller's own contains %q, which only the process-wide default caches know: %s", f, clipStr(string(b), 700)), &c15Case{Ops: []string{"private caches", line}})
+					return
+				}
+			}
+		}
+	}
+}
+
 // c15SameIDStorm: several goroutines resolve THE SAME id, not yet cached, at the same moment (fresh caches per
 // round, real accounts of this machine read from /etc/passwd and /etc/group, so that the look-up behind the cache
 // really runs): every one of them must get what a single look-up on a fresh cache gives.
@@ -592,6 +646,7 @@ func init() {
 			}
 			c15OrderIndependence(c)
 			c15CrossProcess(c)
+			c15PrivateCaches(c)
 			corpus := logenc.CorpusGroups()
 			hostile := logenc.Corpus()
 			if len(corpus) < 20 || len(hostile) < 100 {
